@@ -154,4 +154,33 @@ func init() {
 	}
 	register("damage1", mk(1))
 	register("damage2", mk(2))
+	// six transfers of one kind accepted while never connected, then pairs of
+	// damages: holes with one, two, … intact records in between
+	mkBulk := func(kind string) func() *Scenario {
+		return func() *Scenario {
+			cfg := baseConfig()
+			cfg.AtLeastOnceMax, cfg.ExactlyOnceMax = 8, 8
+			rd := ActorSpec{Name: "reader", Reader: &ReaderSpec{Backoff: true}}
+			var ops []Op
+			for i := 0; i < 6; i++ {
+				ops = append(ops, Op{Kind: kind, Topic: fmt.Sprintf("b/%d", i), Msg: []byte(fmt.Sprintf("B%d-bulk", i))})
+			}
+			return &Scenario{
+				Config: cfg,
+				Actors: []ActorSpec{{Name: "A", Ops: ops}},
+				Gens:   [][]ActorSpec{{rd, {Name: "A", Ops: []Op{{Kind: kind, Topic: "b/new", Msg: []byte("Bnew-bulk")}}}}},
+				Faults: Faults{Crash: true, Damage: 2, Allow: func(w *World, k string) bool {
+					// only once everything was accepted
+					return k != "crash" || len(w.store.m) >= 7
+				}},
+				Horizon: 1500,
+				Final: func(w *World) {
+					w.monitorWire()
+					w.monitorDamage()
+				},
+			}
+		}
+	}
+	register("damagebulk1", mkBulk("pub1"))
+	register("damagebulk2", mkBulk("pub2"))
 }
